@@ -263,7 +263,51 @@ def _whitelist_arg(e):
     return None
 
 
+FILTER_WHAT = {
+    "default": "default() = the non-DMRE sizes, in order", "with_extended_rectangles": "with_extended_rectangles() = all 48 sizes, in order",
+    "all": "all() = all 48 sizes", "with_whitelist": "with_whitelist() = the set of its argument (sorted, duplicates dropped)",
+    "from_iter": "FromIterator = the set of the given iterator", "enforce_square": "enforce_square keeps exactly the square sizes",
+    "enforce_rectangular": "enforce_rectangular keeps exactly the non-square sizes",
+    "enforce_width_in": "enforce_width_in keeps exactly the sizes whose symbol width lies in the bounds (all six RangeBounds kinds, bounds around every catalogue width)",
+    "enforce_height_in": "enforce_height_in keeps exactly the sizes whose symbol height lies in the bounds",
+    "first_symbol_big_enough_for": "first_symbol_big_enough_for(n) = the first size in set order with >= n data codewords (n around every capacity)",
+    "iter": "iter() yields the set in order", "into_iter": "into_iter() yields the set in order", "contains": "contains() is set membership",
+    "is_empty": "is_empty() is set emptiness", "max_capacity": "max_capacity() = maximum of capacity().max over the list (0 when empty)",
+    "Extend": "Extend adds exactly the given sizes", "From:single": "From<SymbolSize> = the one-element list, for each of the 48 sizes",
+    "From:array": "From<[SymbolSize; N]> = the set of the array",
+}
+
+
 def prov_filter(ctx):
+    """PROV-FILTER: every constructor / filter / query of SymbolList folded on concrete lists (filter_exec) and compared with its
+    specification; the statement-shape wiring rules below are the fallback for a function the folder has no model for"""
+    from .core import AnchorMissing
+    r = "PROV-FILTER"
+    f = ctx.facts()
+    ex = filter_exec(ctx)
+    shape = None
+    obs = []
+    for key, what in FILTER_WHAT.items():
+        ok, det = ex.get(key, (None, "not folded"))
+        if ok is None:
+            if shape is None:
+                try:
+                    shape = {o.key.split(":", 1)[1]: o for o in _prov_filter_shape(ctx)}
+                except (AnchorMissing, KeyError, IndexError, TypeError) as e2:
+                    shape = {"__error__": str(e2)}
+            o = shape.get(key)
+            if o is not None:
+                obs.append(o)
+            else:
+                obs.append(Ob(r, key, False, "cannot decide: %s - %s; and the statement shape is not recognised (%s)" % (what, det, shape.get("__error__", "no such obligation"))))
+        else:
+            obs.append(Ob(r, key, bool(ok), what + (" - by folding the function on the full, the default, a custom, a one-element and the empty list" if ok else ": " + str(det)),
+                          site="src/symbol_size.rs"))
+    obs += floor(obs, r, 18, "filter obligations")
+    return obs
+
+
+def _prov_filter_shape(ctx):
     r = "PROV-FILTER"
     f = ctx.facts()
     obs = []
@@ -548,3 +592,255 @@ def _cmp_ge_data(ce, param, elem="s"):
     if is_param(a) and is_data(c):
         return op == "Le"
     return False
+
+
+# ---- PROV-FILTER by folding the SymbolList API on concrete lists (BTreeSet modelled as a sorted duplicate-free list) ---------------
+
+def filter_exec(ctx):
+    """every constructor / filter / query of SymbolList folded on concrete lists of catalogue sizes and compared with its
+    specification computed from the extracted size tables (which TAB-SYM ties to the standard); the set order is the reference
+    order (data codewords, then squared diagonal) that ORD shows the crate's `Ord` to be.  {key: (ok | None, detail)}"""
+    res = ctx.memo("filter_exec", lambda: _filter_exec(ctx))
+    return {k: tuple(v) for k, v in res.items()}
+
+
+def _filter_exec(ctx):
+    f = ctx.facts()
+    t = tables(ctx)
+    V = list(t["variants"])
+    okey = {v: (t["data"][v], t["setup"][v]["width"] ** 2 + t["setup"][v]["height"] ** 2) for v in V}
+    order = sorted(V, key=lambda v: okey[v])
+    out = {}
+
+    def mk(v):
+        return {"__adt__": SS, "__variant__": v}
+
+    def sl(vs):
+        bs = T.BSet(mk(v) for v in sorted(set(vs), key=lambda v: okey[v]))
+        return {"__adt__": SL, "__variant__": "SymbolList", "symbols": bs, "#0": bs}
+
+    def names(x):
+        x = T._loaded(x)
+        if isinstance(x, dict) and "symbols" in x:
+            x = x["symbols"]
+        if isinstance(x, list):
+            return [T._loaded(y).get("__variant__") if isinstance(T._loaded(y), dict) else y for y in x]
+        return x
+
+    def call(fn, args):
+        b = f.thir.get(fn)
+        if b is None:
+            hits = [n for n in f.thir if T.canon(n) == fn]
+            if len(hits) != 1:
+                raise T.Undecidable("function %s not found" % fn)
+            b = f.thir[hits[0]]
+        if len(b["params"]) != len(args):
+            raise T.Undecidable("%s: arity" % fn)
+        fo = T.Folder(f, env={}, on_call=size_attr, effects=True, local_calls=5)
+        fo.set_key = lambda x: okey[x["__variant__"]]
+        for p_, v in zip(b["params"], args):
+            ok, bd = fo._pat_match(p_["pat"], v)
+            if not ok:
+                raise T.Undecidable("%s: parameter pattern" % fn)
+            fo.env.update(bd)
+        return fo.run(b["body"]), fo
+
+    def size_attr(folder, c):
+        # the per-size attribute functions are big matches over the variant; their tables were extracted (and compared with the
+        # standard by TAB-SYM) once - here they are looked up
+        cc = T.canon(T.callee_of(c))
+        if cc.startswith(SS + "::") and len(c["args"]) == 1:
+            last = cc.split("::")[-1]
+            tab = {"block_setup": t["setup"], "num_data_codewords": t["data"], "is_square": t["square"], "is_dmre": t["dmre"]}.get(last)
+            if tab is None and last == "capacity":
+                tab = {v: {"__adt__": "symbol_size::Capacity", "__variant__": "Capacity", "max": t["capacity"][v]["max"], "#0": t["capacity"][v]["max"],
+                           "min": t["capacity"][v]["min"], "#1": t["capacity"][v]["min"]} for v in V if isinstance(t["capacity"].get(v), dict)}
+            if tab is not None:
+                x = T._loaded(folder.fold(c["args"][0]))
+                if isinstance(x, dict) and x.get("__variant__") in tab:
+                    val = tab[x["__variant__"]]
+                    return bool(val) if last in ("is_square", "is_dmre") else val
+        return NotImplemented
+
+    def opt(x):
+        x = T._loaded(x)
+        if isinstance(x, dict) and x.get("__variant__") == "Some":
+            y = T._loaded(x.get("#0"))
+            return y.get("__variant__") if isinstance(y, dict) else y
+        if isinstance(x, dict) and x.get("__variant__") == "None":
+            return None
+        return ("?", x)
+
+    def rng(kind, lo=None, hi=None):
+        d = {"__adt__": "core::ops::" + kind, "__variant__": kind}
+        if lo is not None:
+            d["start"] = lo
+        if hi is not None:
+            d["end"] = hi
+        return d
+    nondmre = [v for v in order if not t["dmre"].get(v)]
+    custom = [order[3], order[0], order[20], order[3], order[47], order[11]]
+    lists = {"all": order, "default": nondmre, "custom": custom, "one": [order[17]], "empty": []}
+
+    def decide(key, thunk):
+        try:
+            bad = thunk()
+            out[key] = (bad is None, bad or "folded")
+        except T.Trap as ex:
+            out[key] = (False, "traps: %s" % ex)
+        except T.Undecidable as ex:
+            out[key] = (None, "does not fold (%s)" % ex)
+
+    def t_default():
+        r, _ = call("<symbol_size::SymbolList as core::default::Default>::default", [])
+        return None if names(r) == nondmre else "default() is %d sizes %s.., expected the %d non-DMRE sizes in order" % (len(names(r)), names(r)[:3], len(nondmre))
+    decide("default", t_default)
+
+    def t_ext():
+        r, _ = call(SL + "::with_extended_rectangles", [])
+        return None if names(r) == order else "with_extended_rectangles() is %d sizes, expected all %d in order" % (len(names(r)), len(order))
+    decide("with_extended_rectangles", t_ext)
+
+    def t_all():
+        r, _ = call(SL + "::all", [])
+        return None if names(r) == order else "all() is %d sizes, expected all %d in order" % (len(names(r)), len(order))
+    decide("all", t_all)
+
+    def coll(fn):
+        def thunk():
+            for nm, vs in lists.items():
+                for arg in ([mk(v) for v in vs], [mk(v) for v in reversed(vs)]):
+                    r, _ = call(fn, [arg])
+                    want = sorted(set(vs), key=lambda v: okey[v])
+                    if names(r) != want:
+                        return "%s of the %s list gives %r.., expected %r.." % (fn.split("::")[-1], nm, names(r)[:4], want[:4])
+            return None
+        return thunk
+    decide("with_whitelist", coll(SL + "::with_whitelist"))
+    decide("from_iter", coll("<symbol_size::SymbolList as core::iter::FromIterator<symbol_size::SymbolSize>>::from_iter"))
+
+    def filt(fn, pred, args=()):
+        def thunk():
+            for nm, vs in lists.items():
+                r, _ = call(fn, [sl(vs)] + list(args))
+                want = [v for v in sorted(set(vs), key=lambda v: okey[v]) if pred(v)]
+                if names(r) != want:
+                    return "%s on the %s list keeps %r.., expected %r.." % (fn.split("::")[-1], nm, names(r)[:4], want[:4])
+            return None
+        return thunk
+    decide("enforce_square", filt(SL + "::enforce_square", lambda v: bool(t["square"].get(v))))
+    decide("enforce_rectangular", filt(SL + "::enforce_rectangular", lambda v: not t["square"].get(v)))
+
+    def dim(fn, field):
+        def thunk():
+            vals = sorted({t["setup"][v][field] for v in V})
+            pts = sorted({x + d for x in vals for d in (-1, 0, 1)} | {0, 1000})
+            cases = []
+            for lo in pts[::3]:
+                cases += [("RangeFrom", lo, None), ("RangeTo", None, lo), ("RangeToInclusive", None, lo)]
+                for hi in pts[1::4]:
+                    cases += [("Range", lo, hi), ("RangeInclusive", lo, hi)]
+            cases.append(("RangeFull", None, None))
+            for kind, lo, hi in cases:
+                def inside(x):
+                    if lo is not None and x < lo:
+                        return False
+                    if hi is not None and (x > hi if "Inclusive" in kind else x >= hi):
+                        return False
+                    return True
+                for nm in ("all", "custom"):
+                    vs = lists[nm]
+                    r, _ = call(fn, [sl(vs), rng(kind, lo, hi)])
+                    want = [v for v in sorted(set(vs), key=lambda v: okey[v]) if inside(t["setup"][v][field])]
+                    if names(r) != want:
+                        return "%s(%s %s..%s) on the %s list keeps %d sizes %r.., expected %d %r.." % (fn.split("::")[-1], kind, lo, hi, nm, len(names(r)), names(r)[:3], len(want), want[:3])
+            return None
+        return thunk
+    decide("enforce_width_in", dim(SL + "::enforce_width_in", "width"))
+    decide("enforce_height_in", dim(SL + "::enforce_height_in", "height"))
+
+    def t_first():
+        pts = sorted({t["data"][v] + d for v in V for d in (-1, 0, 1)} | {0, 5000})
+        for nm, vs in lists.items():
+            srt = sorted(set(vs), key=lambda v: okey[v])
+            for n in pts:
+                r, _ = call(SL + "::first_symbol_big_enough_for", [sl(vs), n])
+                want = next((v for v in srt if t["data"][v] >= n), None)
+                if opt(r) != want:
+                    return "first_symbol_big_enough_for(%d) on the %s list is %r, expected %r" % (n, nm, opt(r), want)
+        return None
+    decide("first_symbol_big_enough_for", t_first)
+
+    def t_max():
+        for nm, vs in lists.items():
+            r, _ = call(SL + "::max_capacity", [sl(vs)])
+            want = max([t["capacity"][v]["max"] for v in vs], default=0)
+            if r != want:
+                return "max_capacity() of the %s list is %r, expected %r" % (nm, r, want)
+        return None
+    decide("max_capacity", t_max)
+
+    def t_iter(fn):
+        def thunk():
+            for nm, vs in lists.items():
+                r, _ = call(fn, [sl(vs)])
+                want = sorted(set(vs), key=lambda v: okey[v])
+                if names(r) != want:
+                    return "%s of the %s list yields %r.., expected %r.." % (fn.split("::")[-1], nm, names(r)[:4], want[:4])
+            return None
+        return thunk
+    decide("iter", t_iter(SL + "::iter"))
+    decide("into_iter", t_iter("<symbol_size::SymbolList as core::iter::IntoIterator>::into_iter"))
+
+    def t_contains():
+        for nm, vs in lists.items():
+            for v in (order[0], order[3], order[17], order[30], order[47]):
+                r, _ = call(SL + "::contains", [sl(vs), mk(v)])
+                if r is not (v in vs):
+                    return "contains(%s) on the %s list is %r" % (v, nm, r)
+        return None
+    decide("contains", t_contains)
+
+    def t_empty():
+        for nm, vs in lists.items():
+            r, _ = call(SL + "::is_empty", [sl(vs)])
+            if r is not (not vs):
+                return "is_empty() of the %s list is %r" % (nm, r)
+        return None
+    decide("is_empty", t_empty)
+
+    def t_extend():
+        fn = "<symbol_size::SymbolList as core::iter::Extend<symbol_size::SymbolSize>>::extend"
+        for nm, vs in lists.items():
+            for add in ([], [order[1]], [order[40], order[3], order[40], order[2]]):
+                me = sl(vs)
+                call(fn, [me, [mk(v) for v in add]])
+                want = sorted(set(vs) | set(add), key=lambda v: okey[v])
+                if names(me) != want:
+                    return "extend(%r) on the %s list gives %r.., expected %r.." % (add, nm, names(me)[:4], want[:4])
+        return None
+    decide("Extend", t_extend)
+
+    def t_from_single():
+        hits = [n for n in f.thir if T.canon(n).startswith("<symbol_size::SymbolList as core::convert::From<") and "[" not in T.canon(n) and T.canon(n).endswith(">::from")]
+        if len(hits) != 1:
+            raise T.Undecidable("From<SymbolSize> not found")
+        for v in order:
+            r, _ = call(hits[0], [mk(v)])
+            if names(r) != [v]:
+                return "SymbolList::from(%s) is %r" % (v, names(r))
+        return None
+    decide("From:single", t_from_single)
+
+    def t_from_array():
+        hits = [n for n in f.thir if T.canon(n).startswith("<symbol_size::SymbolList as core::convert::From<[") and T.canon(n).endswith(">::from")]
+        if len(hits) != 1:
+            raise T.Undecidable("From<[SymbolSize; N]> not found")
+        for nm, vs in lists.items():
+            r, _ = call(hits[0], [[mk(v) for v in vs]])
+            want = sorted(set(vs), key=lambda v: okey[v])
+            if names(r) != want:
+                return "SymbolList::from(array %s) is %r.., expected %r.." % (nm, names(r)[:4], want[:4])
+        return None
+    decide("From:array", t_from_array)
+    return {k: list(v) for k, v in out.items()}
